@@ -2731,7 +2731,7 @@ Theorem step_inv : forall st r o order, Inv st r -> wf_op o = true -> trigger st
   Inv (step order st o) (ref_step r o).
 Proof.
   intros st r o order Hi Hwf Ht.
-  destruct o as [dc rack node maxs|n maxs|n vs|n news dels|n shards|n news dels|n].
+  destruct o as [dc rack node maxs|n maxs|n vs|n news dels|n shards|n news dels|n|n gv].
   - apply join_inv; auto.
   - (* AdjustMax *)
     unfold step. cbn [op_node].
@@ -2770,6 +2770,11 @@ Proof.
     + cbn [ref_step]. rewrite ref_filter_absent; auto.
       intro X. apply (r_keys _ _ (i_ref _ _ Hi)) in X. destruct X as [X1 X2].
       apply present_in in X1. rewrite X1, X2 in P. discriminate.
+  - (* Grow *)
+    unfold step. cbn [op_node ref_step].
+    destruct (present st n && Nat.eqb (length n) 3) eqn:P; cbn [negb]; auto.
+    apply andb_prop in P. destruct P as [P L]. apply present_in in P. apply Nat.eqb_eq in L.
+    apply add_or_update_volume_inv; auto.
 Qed.
 
 Lemma init_inv : Inv init_state [].
@@ -2837,7 +2842,7 @@ Proof.
   { intros order H1 H2. destruct o; try reflexivity.
     - exfalso. apply (H1 maxs). reflexivity.
     - exfalso. apply (H2 shards). reflexivity. }
-  destruct o as [dc rack node maxs|n maxs|n vs|n news dels|n shards|n news dels|n];
+  destruct o as [dc rack node maxs|n maxs|n vs|n news dels|n shards|n news dels|n|n gv];
     try (unfold step_all; split;
          [intros [H|[]]; exists []; exact H
          |intros [order H]; left; rewrite <- H; symmetry; apply Irr; intros; discriminate]).
